@@ -274,4 +274,68 @@ theorem open_y_rx (y y' : Ep) (rest wyx : List Msg) (m : Msg) (em : Emit)
   exact ⟨d, handleRx_keeps_unnamed y y' m em he hctl sp d hd (noneFor_head_unnamed m rest sp hn),
          hr, f1, f2, f3, noneFor_tail m rest sp hn⟩
 
+/-! ### the port layer only reads the port tables -/
+
+theorem Live.congr_ports {y y' : Ep} {w : List Msg} {p q : Nat} (h : y'.ports = y.ports) :
+    Live y' w p q ↔ Live y w p q := by simp only [Live, h]
+
+theorem TxOk.congr_ports {y y' : Ep} {w : List Msg} {p : Nat} {c : Connected} (h : y'.ports = y.ports)
+    (ht : TxOk y w p c) : TxOk y' w p c := ht.congr (by rw [h]) rfl rfl rfl Iff.rfl
+
+theorem PortInv.congr_ports {x x' y y' : Ep} {w : List Msg} (hx : x'.ports = x.ports) (hy : y'.ports = y.ports)
+    (h : PortInv x y w) : PortInv x' y' w := by
+  refine ⟨fun q hq => h.rx_none q (by rw [← hy]; exact hq), h.rx_le,
+          fun q d hd => h.rx_conn q d (by rw [← hy]; exact hd), ?_,
+          fun p c hc => (h.tx p c (by rw [← hx]; exact hc)).congr_ports hy⟩
+  rw [okOrder_congr w (isConnected y') (isConnected y) (fun q => isConnected_congr _ _ q (by rw [hy]))]; exact h.order
+
+theorem OpenInv.congr_ports {y y' : Ep} {a b : List Msg} (hy : y'.ports = y.ports) (h : OpenInv y a b) :
+    OpenInv y' a b := by
+  intro cp sp hin
+  obtain ⟨d, hd, r⟩ := h cp sp hin
+  exact ⟨d, by rw [hy]; exact hd, r⟩
+
+/-- the three kinds of steps of a side, as far as the dispatcher state and the wires go -/
+theorem stepSide_kinds (s s' : Side) (inW inW' out : List Msg) (l : Lab)
+    (h : stepSide s inW l = some (s', inW', out)) :
+    (s'.ep.ports = s.ep.ports ∧ s'.ep.outstanding = s.ep.outstanding ∧ inW' = inW ∧ out = []) ∨
+    (∃ ev m, handleEvt s.ep ev = some (s'.ep, m) ∧ out = emitList m ∧ inW' = inW) ∨
+    (∃ m e' em, inW = m :: inW' ∧ out = [] ∧ handleRx s.rxView m = .ok (e', em) ∧ s'.ep.ports = e'.ports) := by
+  cases l <;> simp only [stepSide] at h
+  case dispConn =>
+    (repeat' split at h) <;> first
+      | (simp at h; done)
+      | (rename_i ev rest _ _ e' m he
+         simp only [Option.some.injEq, Prod.mk.injEq] at h; obtain ⟨rfl, rfl, rfl⟩ := h
+         exact Or.inr (Or.inl ⟨ev, m, he, rfl, rfl⟩))
+  case dispPort =>
+    (repeat' split at h) <;> first
+      | (simp at h; done)
+      | (rename_i ev rest _ _ e' m he
+         simp only [Option.some.injEq, Prod.mk.injEq] at h; obtain ⟨rfl, rfl, rfl⟩ := h
+         exact Or.inr (Or.inl ⟨ev, m, by simpa using he, rfl, rfl⟩))
+  case dispListener =>
+    (repeat' split at h) <;> first
+      | (simp at h; done)
+      | (rename_i _ e' m he
+         simp only [Option.some.injEq, Prod.mk.injEq] at h; obtain ⟨rfl, rfl, rfl⟩ := h
+         exact Or.inr (Or.inl ⟨_, m, he, rfl, rfl⟩))
+  case goodbye =>
+    (repeat' split at h) <;> first
+      | (simp at h; done)
+      | (rename_i _ e' m he
+         simp only [Option.some.injEq, Prod.mk.injEq] at h; obtain ⟨rfl, rfl, rfl⟩ := h
+         exact Or.inr (Or.inl ⟨_, m, he, rfl, rfl⟩))
+  case deliver =>
+    (repeat' split at h) <;> first
+      | (simp at h; done)
+      | (rename_i m rest _ e' em he
+         simp only [Option.some.injEq, Prod.mk.injEq] at h; obtain ⟨rfl, rfl, rfl⟩ := h
+         exact Or.inr (Or.inr ⟨m, e', em, rfl, rfl, he, by simp⟩))
+  all_goals
+    (repeat' split at h) <;> first
+      | (simp at h; done)
+      | (simp only [Option.some.injEq, Prod.mk.injEq] at h; obtain ⟨rfl, rfl, rfl⟩ := h
+         exact Or.inl ⟨rfl, rfl, rfl, rfl⟩)
+
 end Remoc.Table.Sys
